@@ -10,6 +10,7 @@ import LolHtml.Thm.Full4
 import LolHtml.Thm.FullIds
 import LolHtml.Lemmas.LexOnlyE
 import LolHtml.Lemmas.StickySync
+import LolHtml.Lemmas.FullSites
 
 namespace LolHtml.Thm.Full
 open LolHtml LolHtml.Model LolHtml.Model.Full LolHtml.Model.Handlers LolHtml.EditModel LolHtml.Lemmas.Full
@@ -161,41 +162,61 @@ theorem fullCtl_stickySync (cfg : Cfg) : LexE.StickySync (fullCtl cfg) (fun g =>
 
 /-! ## the dispatcher over the real controller, side by side with the cleaned one -/
 
-/-- the class of errors at which the real run may leave the cleaned one in lexer mode -/
-def GA (e : Err) : Prop := Chunk.R.GP e ∧ Allowed e
+/-- the three residual glue sites -/
+def Glue (e : Err) : Prop := e = .panic rAttr ∨ e = .panic rPayload ∨ e = .panic rMatcher
 
-theorem kd_fullD {cfg : Cfg} {d : Disp (FullSt cfg)} (h : KD cfg d) : Chunk.R.FullD cfg d.ctl := by
-  show Chunk.R.NGF d.ctl.1
-  unfold Chunk.R.NGF
-  rw [h.2.fault]
-  intro hh; cases hh
+theorem Glue.gp {e : Err} (h : Glue e) : Chunk.R.GP e := by
+  rcases h with h | h | h <;> subst h <;> exact Or.inl ⟨_, rfl, by decide⟩
+
+/-- an `Allowed` error returned by a callback of the real controller, of panic class: a glue site -/
+theorem glue_of_allowed {cfg : Cfg} {e : Err} (hG : Chunk.R.GP e) (hc : Chunk.R.CbErr (fullCtl cfg) (Chunk.R.DO cfg) e)
+    (hA : Allowed e) : Glue e := by
+  rcases hA with h | h | h | h | h
+  · subst h
+    rcases hG with ⟨m, hm, _⟩ | ⟨s, hs⟩
+    · cases hm
+    · cases hs
+  · exact Or.inl h
+  · exact Or.inr (Or.inl h)
+  · exact Or.inr (Or.inr h)
+  · exact absurd h (Chunk.R.cbErr_not_own cfg e hc)
+
+theorem kd_DO {cfg : Cfg} {d : Disp (FullSt cfg)} (h : KD cfg d) : Chunk.R.DO cfg d.ctl := by
+  refine ⟨?_, fun b _ => ?_⟩
+  · show Chunk.R.NGF d.ctl.1
+    unfold Chunk.R.NGF
+    rw [h.2.fault]
+    intro hh; cases hh
+  · show d.ctl.1.fault ≠ some b
+    rw [h.2.fault]
+    intro hh; cases hh
 
 theorem fullCtl_lexE (cfg : Cfg) (hlex : LexCfg cfg) :
-    LexE.CtlLexE (genWorld cfg) (Chunk.R.cleanCtl (fullCtl cfg)) (KD cfg) GA where
+    LexE.CtlLexE (genWorld cfg) (Chunk.R.cleanCtl (fullCtl cfg)) (KD cfg) Glue where
   ops := fun inp => by
-    have hsim := Chunk.R.cleanCtl_sim (Chunk.R.fullCtl_panicLaws cfg)
+    have hsim := Chunk.R.fullCtl_sim_prov cfg
     constructor
     · intro lx d hd
-      rcases Chunk.R.handleTag_step hsim inp lx d (kd_fullD hd) with ⟨he, _⟩ | ⟨e, hG, he⟩
+      rcases Chunk.R.handleTag_step hsim inp lx d (kd_DO hd) with ⟨he, _⟩ | ⟨e, ⟨hG, hc⟩, he⟩
       · refine Or.inl ⟨he, fun a ha => ?_⟩
         have hpost := Full_handleTag_lexer cfg (Full_idsBounded cfg) d hd.1 hd.2 inp lx
         obtain ⟨hi', hJ'⟩ := hpost.1 a ha
         refine ⟨⟨hi', hJ'⟩, ?_⟩
         exact LexE.handleTag_dir (fullCtl_stickySync cfg) d lx hd.1.1 hd.1.2 a ha (J_sticky cfg hlex _ hJ')
-      · exact Or.inr ⟨e, ⟨hG, (Full_handleTag_lexer cfg (Full_idsBounded cfg) d hd.1 hd.2 inp lx).2 e he⟩, he⟩
+      · exact Or.inr ⟨e, glue_of_allowed hG hc ((Full_handleTag_lexer cfg (Full_idsBounded cfg) d hd.1 hd.2 inp lx).2 e he), he⟩
     · intro lx d hd
-      rcases Chunk.R.handleNonTag_step hsim inp lx d (kd_fullD hd) with ⟨he, _⟩ | ⟨e, hG, he⟩
+      rcases Chunk.R.handleNonTag_step hsim inp lx d (kd_DO hd) with ⟨he, _⟩ | ⟨e, ⟨hG, hc⟩, he⟩
       · refine Or.inl ⟨he, fun ha => ?_⟩
         exact (Full_handleNonTag_lexer cfg d hd.1 hd.2 inp lx).1 () ha
-      · exact Or.inr ⟨e, ⟨hG, (Full_handleNonTag_lexer cfg d hd.1 hd.2 inp lx).2 e he⟩, he⟩
+      · exact Or.inr ⟨e, glue_of_allowed hG hc ((Full_handleNonTag_lexer cfg d hd.1 hd.2 inp lx).2 e he), he⟩
   bail := rfl
   flush := fun d d' inp k hf hd => by
     obtain ⟨s1, s2, _⟩ := flushRemaining_same hf
     have hc := Chunk.R.flushRemaining_ctl hf
     exact ⟨⟨by rw [s1]; exact hd.1.1, by rw [s2]; exact hd.1.2⟩, by rw [hc]; exact hd.2⟩
   handleEnd := fun d hd => by
-    have hsim := Chunk.R.cleanCtl_sim (Chunk.R.fullCtl_panicLaws cfg)
-    rcases hsim.handleEnd d.ctl (kd_fullD hd) with ⟨he, _⟩ | ⟨e, hG, he⟩
+    have hsim := Chunk.R.fullCtl_sim_prov cfg
+    rcases hsim.handleEnd d.ctl (kd_DO hd) with ⟨he, _⟩ | ⟨e, ⟨hG, _⟩, he⟩
     · exact Or.inl he
     · have := Full_handleEnd_lexer cfg d.ctl hd.2 e he
       subst this
@@ -207,12 +228,13 @@ theorem fullCtl_lexE (cfg : Cfg) (hlex : LexCfg cfg) :
 /-- **Full_no_panic_lexer_allowed.** Lexer-mode configurations (a document-level text / comment / doctype
 handler is registered), every settings record, input and chunking: every call of the whole rewriter model
 with the REAL controller returns ok, a handler / memory / ambiguity error, the documented panic of a call
-after an error — or a panic at one of the sites in `Allowed` (the three residual glue sites and the
-dispatcher's own slice checks). Parser, stream and the rest of the dispatcher contribute nothing: until that
-error the run IS the run of the cleaned controller (`Full_clean_no_panic`). -/
+after an error — or a panic at one of the three residual glue sites (`Glue`: `rAttr`, `rPayload`,
+`rMatcher`). Parser, stream and dispatcher contribute nothing (also not the dispatcher's own slice checks,
+`DispOwn`): until a callback of the controller returns such an error, the run IS the run of the cleaned
+controller (`Full_clean_no_panic`). -/
 theorem Full_no_panic_lexer_allowed (cfg : Cfg) (hlex : LexCfg cfg) (settings : Settings) (chunks : List Bytes) :
     ∀ x ∈ (run (genWorld cfg) (Rewriter.new (genWorld cfg) (FullSt.init cfg) settings) chunks).2,
-      Model.CallOK (fun _ => False) x ∨ ∃ e, Chunk.R.GP e ∧ Allowed e ∧ x = .err e := by
+      Model.CallOK (fun _ => False) x ∨ ∃ e, Glue e ∧ x = .err e := by
   have hL := fullCtl_lexE cfg hlex
   have hst : ((genWorld cfg).ctl.initialFlags (FullSt.init cfg)).Sticky = true := by
     show (St.init cfg).flags.Sticky = true
@@ -220,19 +242,16 @@ theorem Full_no_panic_lexer_allowed (cfg : Cfg) (hlex : LexCfg cfg) (settings : 
     exact J_sticky cfg hlex _ (J_init cfg)
   obtain ⟨hnew, hr⟩ := LexE.new_lexE hL (FullSt.init cfg) settings hst (KD_new cfg settings.encoding)
   intro x hx
-  rcases LexE.run_lexE hL C03.C03_emitsChecked_gen chunks _ hr x hx with k | k | ⟨e', ⟨e, ⟨hG, hA⟩, hee⟩, hxe⟩
+  rcases LexE.run_lexE hL C03.C03_emitsChecked_gen chunks _ hr x hx with k | k | ⟨e', ⟨e, hG, hee⟩, hxe⟩
   · left
     rw [hnew] at k
     exact Full_clean_no_panic cfg settings chunks x k
   · left; rw [k]; trivial
   · right
-    refine ⟨e, hG, hA, ?_⟩
+    refine ⟨e, hG, ?_⟩
     rcases hee with rfl | rfl
     · exact hxe
     · rw [hxe]
-      rcases hG with ⟨m, rfl, _⟩ | ⟨s, rfl⟩
-      · rfl
-      · -- an internal-class error is not `Allowed`
-        rcases hA with h | h | h | h | h | h | h | h <;> cases h
+      rcases hG with h | h | h <;> subst h <;> rfl
 
 end LolHtml.Thm.Full
